@@ -373,3 +373,27 @@ func GenStorm(g *vh.Gen, c *Cfg, pool []string, k int) []byte {
 	line("QUIT")
 	return []byte(b.String())
 }
+
+// GenErrorStorm: one session with k faulty lines in a row (unknown words, commands out of sequence, bad arguments,
+// refused recipients), each of which is owed exactly one 5xx, followed by an ordinary transaction that is owed its
+// replies and its delivery. Whatever a server counts per error shows only after many errors on one connection.
+func GenErrorStorm(g *vh.Gen, c *Cfg, pool []string, k int) []byte {
+	c.DA, c.DS = true, true
+	c.Acc, c.Rej, c.Sto, c.Dis, c.RejO = "", "", "", "", ""
+	c.MaxRcpt = 200
+	var b strings.Builder
+	line := func(s string) { b.WriteString(s); b.WriteString("\r\n") }
+	line("HELO errors.example")
+	for i := 0; i < k; i++ {
+		l := g.Pick("FOO bar", "HELP", "TURN", "SEND x", "EXPN list", "RCPT TO:<a@" + pool[0] + ">", "DATA", "MAIL", "MAIL TO:<a@b.com>",
+			"MAIL FROM:a@b.com", "RCPT", "HELLO", "QUI", "AUTH CRAM-MD5", "MAIL FROM:<a b@c.org>", "DATA now")
+		line(l)
+	}
+	line("MAIL FROM:<s@" + pool[0] + ">")
+	line("RCPT TO:<" + g.Pick("alice", "bob", "carol") + "@" + pool[g.Intn(2)] + ">")
+	line("DATA")
+	b.WriteString(StuffLines([]string{"Subject: after the errors", "", "x"}))
+	line("NOOP")
+	line("QUIT")
+	return []byte(b.String())
+}
